@@ -10,6 +10,7 @@ import (
 	"runtime"
 	"strconv"
 	"sync"
+	"sync/atomic"
 	"testing"
 	"time"
 
@@ -39,6 +40,11 @@ type raceSummary struct {
 	HangStacks string `json:"hang_stacks,omitempty"`
 }
 
+// raceProgress is bumped by the workloads whenever something completes (a
+// message consumed, a decode displayed, a queue operation returned): a hang is
+// "no progress for a minute of real time", never "took longer than expected".
+var raceProgress atomic.Int64
+
 type sliceReader struct {
 	data []byte
 	pos  int
@@ -67,6 +73,9 @@ func raceC09(t *rt.Tape, sum *raceSummary) {
 	o := &hx.Outcome{}
 	c := &hx.Ctx{T: t, Tier: "quick"}
 	_, wire, _ := genNoisyStream(c, o)
+	if len(wire) > 16384 {
+		return // the long-history streams belong to the gated lane
+	}
 	want, pan := sequentialRef(wire)
 	if pan != "" {
 		return
@@ -87,6 +96,7 @@ func raceC09(t *rt.Tape, sum *raceSummary) {
 			for m := range chans[i] {
 				_ = m.String()
 				got[i] = append(got[i], m)
+				raceProgress.Add(1)
 			}
 		}(i)
 	}
@@ -162,6 +172,7 @@ func raceC15(t *rt.Tape, sum *raceSummary) {
 					go func(cp rtcm.Message, fi int) {
 						defer wg.Done()
 						txt := displayOf(&cp)
+						raceProgress.Add(1)
 						if txt != bases[fi].text {
 							mu.Lock()
 							sum.Mismatches++
@@ -192,6 +203,7 @@ func raceC18(t *rt.Tape, sum *raceSummary) {
 			defer wg.Done()
 			for i := 0; i < 40; i++ {
 				q.Add(msgWithID(uint64(a*1000 + i + 1)))
+				raceProgress.Add(1)
 			}
 		}(a)
 	}
@@ -202,6 +214,7 @@ func raceC18(t *rt.Tape, sum *raceSummary) {
 			defer wg.Done()
 			for i := 0; i < 40; i++ {
 				got := idsOf(q.GetMessages())
+				raceProgress.Add(1)
 				bad := len(got) > n
 				// per adder the ids must be increasing (a contiguous run of the addition order)
 				last := map[uint64]uint64{}
@@ -255,13 +268,27 @@ func RaceLane(t *testing.T) {
 				raceC18(tape, sum)
 			}
 		}()
-		select {
-		case <-done:
-		case <-time.After(20 * time.Second):
-			// a real deadlock (or livelock) in the un-gated run
+		stuck := false
+		last, lastChange := raceProgress.Load(), time.Now()
+	waiting:
+		for {
+			select {
+			case <-done:
+				break waiting
+			case <-time.After(2 * time.Second):
+				if p := raceProgress.Load(); p != last {
+					last, lastChange = p, time.Now()
+				} else if time.Since(lastChange) > 60*time.Second {
+					stuck = true
+					break waiting
+				}
+			}
+		}
+		if stuck {
+			// a real deadlock (or livelock) in the un-gated run: nothing completed for a minute
 			// (a fresh summary: the stuck iteration's goroutines still own parts of sum)
 			hs := &raceSummary{Prop: id, Iterations: iters}
-			hs.Hang = fmt.Sprintf("iteration %d (seed %d, index %d) did not finish within 20 s of real time", iters, seed, from+i)
+			hs.Hang = fmt.Sprintf("iteration %d (seed %d, index %d): no operation completed for 60 s of real time", iters, seed, from+i)
 			buf := make([]byte, 1<<16)
 			n := runtime.Stack(buf, true)
 			hs.HangStacks = string(buf[:n])
